@@ -199,7 +199,7 @@ MEDIUM_VALUES = [0, 0.0, 0.5, 1, 1.0, 2.5, 10, 10.0, 100, 1000]
 def cases(draw, kind):
     spec = draw(model_specs(forced_one_in=8 if kind == "setget" else 30))
     ex_ids = [r["id"] for r in spec["rxns"] if r["id"].startswith("EX_x")]
-    case = {"kind": kind, "spec": spec, "path": draw(st.sampled_from(build.BUILD_PATHS))}
+    case = {"kind": kind, "spec": spec, "path": draw(st.sampled_from(build.BUILD_PATHS_LP))}
     if kind == "setget":
         steps = []
         for _ in range(draw(st.integers(1, 3))):
